@@ -91,6 +91,7 @@ class GenIndex:
         self.fn_of = [None] * (len(self.lines) + 2)
         self.mod_of = [None] * (len(self.lines) + 2)
         self.fn_props = {}
+        self.fn_sem = {}
         self.labels = {}  # name -> dict(props, line, fn)
         self.label_lines = {}  # line -> [names]
         stack, mod = [], None
@@ -102,11 +103,14 @@ class GenIndex:
                 elif kind == 'FN':
                     toks = body.split()
                     name = (mod or '') + '::' + toks[0]
-                    props = []
+                    props, sem = [], None
                     for t in toks[1:]:
                         if t.startswith('props='):
                             props = [p for p in t[6:].split(',') if p]
+                        if t.startswith('sem='):
+                            sem = [p for p in t[4:].split(',') if p]
                     self.fn_props[name] = props
+                    self.fn_sem[name] = sem if sem is not None else props
                     stack.append(name)
                 elif kind == 'ENDFN':
                     if stack:
@@ -181,7 +185,12 @@ def classify(res):
                 if p not in props:
                     props.append(p)
         if not labels and fn:
-            props = list(idx.fn_props.get(fn, []))
+            # safety-type obligations (overflow, index/unwrap preconditions declared in vstd) -> props;
+            # other unlabelled obligations (callee contracts, unlabelled invariants/asserts) -> sem
+            in_gen = [s for s in spans if s.get('file_name', '').endswith('gen.rs')]
+            external_pre = ('precondition' in low) and len(in_gen) <= 1
+            safety = ('arithmetic' in low or 'bit shift' in low or 'division' in low or external_pre)
+            props = list(idx.fn_props.get(fn, [])) if safety else list(idx.fn_sem.get(fn, []))
         f = dict(msg=msg, labels=labels, fn=fn, props=props, line=line, rendered=rendered, kind=kind)
         if kind == 'obligation' and fn is None and not labels:
             f['kind'] = 'machinery'  # failure inside the ghost library / prelude
